@@ -286,6 +286,37 @@ pub const fn sample_rate_to_capacity(sample_rate_hz: u32) -> usize {
     num_main_samples_to_care_about + num_to_discard_at_end + 1
 }
 
+#[cfg(feature = "verif-hooks")]
+impl<const BUFFER_CAPACITY: usize> RibbonController<BUFFER_CAPACITY> {
+    /// `(high boundary, error const, current val, [ignore, discard, received, written], just_pressed, just_released)`
+    pub fn verif_state(&self) -> (f32, f32, f32, [usize; 4], bool, bool) {
+        (
+            self.finger_press_high_boundary,
+            self.error_const,
+            self.current_val,
+            [
+                self.num_to_ignore_up_front,
+                self.num_to_discard_at_end,
+                self.num_samples_received,
+                self.num_samples_written,
+            ],
+            self.finger_just_pressed,
+            self.finger_just_released,
+        )
+    }
+
+    pub fn verif_buffer(&self) -> &HistoryBuffer<f32, BUFFER_CAPACITY> {
+        &self.buff
+    }
+}
+
+#[cfg(feature = "verif-hooks")]
+pub const VERIF_RIBBON_TIMES_USEC: [u32; 3] = [
+    RIBBON_FALL_TIME_USEC,
+    RIBBON_RISE_TIME_USEC,
+    MIN_CAPTURE_TIME_USEC,
+];
+
 #[cfg(test)]
 mod tests {
     use super::*;
